@@ -37,17 +37,59 @@ theorem stash_then_code_eq_code_then_pake (C : Crypto) (cfg : Cfg) (code peer : 
   · simp only [run, seqM, envStep, gotCode_init, rxPake_stCode C cfg code peer m key h]
   · simp only [run, seqM, envStep, rxPake_init, gotCode_stashed C cfg code m key h]
 
-/-- … and when SPAKE2 refuses the element, both orders raise with the same partial state, and no
-    key is ever reported. -/
-theorem refused_element_no_key (C : Crypto) (cfg : Cfg) (code peer : String) (m : Bytes)
-    (h : C.pakeFinish (toBytes C code) (toBytes C cfg.appid) cfg.rnd m = none) :
-    (run C cfg [.code code, .rx ⟨peer, "pake", pakeBody m⟩] init).2 = some .pakeError ∧
-    (run C cfg [.rx ⟨peer, "pake", pakeBody m⟩, .code code] init).2 = some .pakeError ∧
-    (run C cfg [.code code, .rx ⟨peer, "pake", pakeBody m⟩] init).1.wkey = none ∧
-    (run C cfg [.rx ⟨peer, "pake", pakeBody m⟩, .code code] init).1.wkey = none := by
-  simp only [run, seqM, envStep, gotCode_init, rxPake_stCode_fail C cfg code peer m h, rxPake_init,
-    gotCode_stashed_fail C cfg code m h]
-  simp [stCode, init]
+/-- a PAKE message is hostile for this client when its body carries no usable element (not JSON,
+    not an object, no `pake_v1`, not hex) or SPAKE2 refuses the element (malformed, not on the
+    curve, wrong side byte, our own element reflected) -/
+def HostilePake (C : Crypto) (cfg : Cfg) (code : String) (body : Bytes) : Prop :=
+  parsePake body = none ∨
+  ∃ m, body = pakeBody m ∧ C.pakeFinish (toBytes C code) (toBytes C cfg.appid) cfg.rnd m = none
+
+/-- **hostile_pake_scares.**  A hostile PAKE message is a "codes differ / stranger" case: for both
+    arrival orders and every later schedule of peer messages (with any body) and application
+    sends, nothing raises, no key is ever reported or kept (`derive_key` keeps raising NoKeyError),
+    no verifier / versions / message is delivered, `T.close` is only ever called with mood "scary",
+    and the side closes with exactly WrongPasswordError. -/
+theorem hostile_pake_scares (C : Crypto) (cfg : Cfg) (code peer : String) (body : Bytes)
+    (h : HostilePake C cfg code body) (codeFirst : Bool) (later : List Env) (hl : ∀ e ∈ later, e.later) :
+    ∃ s', run C cfg ((if codeFirst then [.code code, .rx ⟨peer, "pake", body⟩]
+                      else [.rx ⟨peer, "pake", body⟩, .code code]) ++ later) init = (s', none) ∧
+      s'.wkey = none ∧ (∀ k, Ev.wKey k ∉ s'.out) ∧ (∀ e ∈ s'.out, e.delivers = false) ∧
+      s'.b = .S3_closing ∧ s'.result = .wrongPassword ∧
+      Ev.tClose "scary" ∈ s'.out ∧ (∀ mood, Ev.tClose mood ∈ s'.out → mood = "scary") ∧
+      (∀ p n, deriveKey C s' p n = .error .noKeyError) ∧
+      (run C cfg [.closed] s').2 = none ∧
+      (run C cfg [.closed] s').1.out = s'.out ++ [.wClosed .wrongPassword] ∧
+      (run C cfg [.close, .closed] s').1.out = s'.out ++ [.wClosed .wrongPassword] := by
+  -- the state after the two-event prefix
+  have hpre : ∃ skst x, run C cfg (if codeFirst then [.code code, .rx ⟨peer, "pake", body⟩]
+                      else [.rx ⟨peer, "pake", body⟩, .code code]) init
+        = ({ stHostile C cfg code skst with stash := x }, none) := by
+    rcases h with h | ⟨m, rfl, h⟩
+    · refine ⟨.S3_scared, if codeFirst then none else some body, ?_⟩
+      cases codeFirst
+      · simp only [Bool.false_eq_true, if_false, run, seqM, envStep, rxPake_init,
+          gotCode_stashed_unusable C cfg code body h]
+      · simp only [if_true, run, seqM, envStep, gotCode_init, rxPake_stCode_unusable C cfg code peer body h]
+        rfl
+    · refine ⟨.S2_know_key, if codeFirst then none else some (pakeBody m), ?_⟩
+      cases codeFirst
+      · simp only [Bool.false_eq_true, if_false, run, seqM, envStep, rxPake_init,
+          gotCode_stashed_refused C cfg code m h]
+      · simp only [if_true, run, seqM, envStep, gotCode_init, rxPake_stCode_refused C cfg code peer m h]
+        rfl
+  obtain ⟨skst, x, hp⟩ := hpre
+  obtain ⟨s', e, r⟩ := run_refused C cfg later { stHostile C cfg code skst with stash := x }
+    (stHostile_refused C cfg code skst x) rfl hl
+  obtain ⟨c1, c2, _, c4⟩ := refused_closed C cfg s' r
+  refine ⟨s', ?_, r.wkey, r.noKey, r.quiet, r.b, r.res, r.hasScary, r.scary, ?_, c1, c2, c4⟩
+  · rw [run_append, hp]; exact e
+  · intro p n; simp [deriveKey, r.wkey]
+
+/-- the hypothesis is met by the toy instance: a body without the element tag, and a reflected element -/
+example : HostilePake (toyCrypto sampleNfc) ⟨"s0", "app", [1], [0]⟩ "4-a" [2] := Or.inl rfl
+example : HostilePake (toyCrypto sampleNfc) ⟨"s0", "app", [1], [0]⟩ "4-a"
+    (myPake (toyCrypto sampleNfc) ⟨"s0", "app", [1], [0]⟩ "4-a") :=
+  Or.inr ⟨_, rfl, by decide⟩
 
 /-- what a side publishes as its PAKE message does not depend on the arrival order -/
 theorem publishes_pake (C : Crypto) (I : C.Ideal) (a b : Cfg) (ca cb : String) (hr : a.rnd ≠ b.rnd) (o : Bool) :
